@@ -1,6 +1,9 @@
-(* C04 — parsing is total.  Statements only (tokenizer part; reflective checks on the regenerated tables). *)
+(* C04 — parsing is total.  Statements only: reflective checks on the regenerated tokenizer tables, and the no-panic
+   theorem of the xml tree-builder model (the html tree builder's is C02_tree_no_panic_partial in Props/C02.v, kept
+   there because its proof chain is rebuilt whenever a tree-builder table changes). *)
 From Coq Require Import List NArith Bool.
 From HV Require Import TokIR.IR TokIR.Interp TokIR.Checks Gen.GenHtmlTok Gen.GenXmlTok Inst.InstHtmlTok Inst.InstXmlTok.
+From HV Require XmlNs.XTreeModel XmlNs.XTreeProofs.
 Import ListNotations.
 
 (* EOF handling: no EOF arm reads input, and following EOF successor states from any state reaches an arm that
@@ -28,3 +31,11 @@ Print Assumptions C04_html_no_fall.
 Theorem C04_xml_no_fall : no_fall xml_table = [].
 Proof. exact xml_no_fall. Qed.
 Print Assumptions C04_xml_no_fall.
+
+(* xml tree builder (model coq/XmlNs/XTreeModel.v, tied to XmlTreeBuilder by the C16 correspondence): for EVERY token
+   stream the builder reaches none of its expect()/unwrap() sites.  _partial: the tie of the model to the Rust code is
+   differential testing; stack depth and time are outside the model. *)
+Theorem C04_xml_tree_builder_never_panics_partial :
+  forall rts, XTreeModel.tpanic (XTreeModel.run (map XTreeModel.tokenize rts)) = false.
+Proof. exact XTreeProofs.tree_builder_never_panics. Qed.
+Print Assumptions C04_xml_tree_builder_never_panics_partial.
